@@ -3,7 +3,8 @@ import CoapVerif.Spec.Dedup
 /-!
 Model of the request path of `udp/client/conn.go` for C05: `Process` (checkMyMessageID) →
 `handleReq` (per-MID lock ⇒ one atomic step per arrival; `checkResponseCache`; `handle`;
-`processResponse` with its four cases and the key each stores under) →
+`processResponse` with its four cases and the key each stores under (the empty / reset reply is cached
+since the F28 fix; whether it is comes from the regenerated `emptyReplyCached`)) →
 `ProcessReceivedMessageWithHandler` / `writeMessageAsync`, the response cache
 (`messageCache` over `pkg/cache`: `Load` misses on an expired entry, `LoadOrStore` keeps an
 unexpired entry, `CheckExpirations` removes `now.After(validUntil)`), and the own message-ID counter
@@ -18,6 +19,7 @@ open CoapVerif.Spec.Dedup
 structure Params where
   lifetime : Nat
   storeKeyIsRequestMID : Bool
+  emptyReplyCached : Bool
   midGuard : Nat
   midJump : Nat
 
@@ -108,14 +110,14 @@ def dupType : RType → MType
 
 /-- `processResponse`: the new value of the own-ID counter and, if something is to be written, the
     response message together with whether it is put into the response cache. -/
-def respond (typ : RType) (mid : Nat) (tok : List UInt8) (w : Option Wr) (msgID : Nat) : Nat × Option (Dgram × Bool) :=
+def respond (emptyCached : Bool) (typ : RType) (mid : Nat) (tok : List UInt8) (w : Option Wr) (msgID : Nat) : Nat × Option (Dgram × Bool) :=
   match w with
   | some w =>
     if w.code = 0 then
-      -- isPongOrResetResponse: never cached
+      -- isPongOrResetResponse: cached like any other reply since the F28 fix (`emptyCached` is read from the source)
       match typ with
-      | .con => (msgID, some (⟨.ack, 0, mid, tok, w.opts, w.pay⟩, false))
-      | .non => (u32 (msgID + 1), some (⟨.non, 0, u16 (msgID + 1), tok, w.opts, w.pay⟩, false))
+      | .con => (msgID, some (⟨.ack, 0, mid, tok, w.opts, w.pay⟩, emptyCached))
+      | .non => (u32 (msgID + 1), some (⟨.non, 0, u16 (msgID + 1), tok, w.opts, w.pay⟩, emptyCached))
     else
       -- `SetMessageID(cc.GetMessageID())` runs before the confirmable case overrides type and MID
       match typ with
@@ -150,7 +152,7 @@ def recv (P : Params) (s : State) (typ : RType) (mid : Nat) (tok : List UInt8) (
     let n := s.nexec + 1
     let nm := nestedOf beh tok n msgID0
     let now' := s.now + dur
-    let rc := respond typ mid tok (handlerWr beh n) nm.1
+    let rc := respond P.emptyReplyCached typ mid tok (handlerWr beh n) nm.1
     let cache' := match rc.2 with
       | some (r, true) => store s.cache now' (if P.storeKeyIsRequestMID then mid else r.mid) ⟨r, now' + P.lifetime⟩
       | _ => s.cache
@@ -181,7 +183,8 @@ def runFrom (P : Params) (s : State) (evs : List Ev) : State := evs.foldl (fun s
 
 /-- Parameters as the code has them today (regenerated from /repo on every run). -/
 def params : Params :=
-  ⟨Generated.Dedup.exchangeLifetimeNs, Generated.Dedup.storeKeyIsRequestMID, Generated.Dedup.midGuard, Generated.Dedup.midJump⟩
+  ⟨Generated.Dedup.exchangeLifetimeNs, Generated.Dedup.storeKeyIsRequestMID, Generated.Dedup.emptyReplyCached,
+   Generated.Dedup.midGuard, Generated.Dedup.midJump⟩
 
 def run (msgID : Nat) (evs : List Ev) : State := runFrom params (init msgID) evs
 
